@@ -573,7 +573,39 @@ func (env *SpecEnv) call(e *ast.CallExpr) *Val {
 				o.bound = nb
 				ne.old = &o
 			}
+			// facts produced while evaluating the body (type invariants of loaded values) may mention the
+			// bound variable: they become guards inside the quantifier instead of path assumptions
+			type mark struct {
+				st   *State
+				base int
+			}
+			marks := []mark{{ne.s, len(ne.s.pc)}}
+			if ne.old != nil && ne.old.s != ne.s {
+				marks = append(marks, mark{ne.old.s, len(ne.old.s.pc)})
+			}
 			body := ne.term(ne.eval(e.Args[3]))
+			var guards []string
+			for _, m := range marks {
+				var keep []string
+				var keepb []bool
+				for i := m.base; i < len(m.st.pc); i++ {
+					if containsSym(m.st.pc[i], bn) {
+						guards = append(guards, m.st.pc[i])
+					} else {
+						keep = append(keep, m.st.pc[i])
+						keepb = append(keepb, m.st.pcb[i])
+					}
+				}
+				m.st.pc = append(m.st.pc[:m.base:m.base], keep...)
+				m.st.pcb = append(m.st.pcb[:m.base:m.base], keepb...)
+			}
+			if len(guards) > 0 {
+				if id.Name == "forall" {
+					body = implies(and(guards...), body)
+				} else {
+					body = and(and(guards...), body)
+				}
+			}
 			rng := and(sx("<=", lo, bn), sx("<", bn, hi))
 			if id.Name == "forall" {
 				return &Val{T: B, S: fmt.Sprintf("(forall ((%s Int)) %s)", bn, implies(rng, body))}
@@ -621,6 +653,12 @@ func (env *SpecEnv) call(e *ast.CallExpr) *Val {
 				return &Val{T: nil, S: x.stGet(env.stOf(v), ci.Name+".dom", fmt.Sprintf("(Array %s Bool)", ci.KSort))}
 			}
 			return &Val{T: nil, S: x.stGet(env.stOf(v), ci.Name+".val", fmt.Sprintf("(Array %s %s)", ci.KSort, ci.VSort))}
+		case "voteinfos":
+			T := x.voteInfosType()
+			if T == nil {
+				env.failf("VoteInfo type not found")
+			}
+			return x.valOf(env.s, T, x.ctxConst("VoteInfos", x.c.sortOf(T)))
 		case "chainid":
 			return &Val{T: types.Typ[types.String], S: x.ctxConst("ChainID", "Bytes")}
 		case "blocktime":
@@ -857,4 +895,15 @@ func (x *Exec) specVars(s *State, fn *ssa.Function, env map[ssa.Value]*Val, at *
 		}
 	}
 	return vars
+}
+
+func (x *Exec) voteInfosType() types.Type {
+	for _, p := range x.prog.SSA.AllPackages() {
+		if p.Pkg.Path() == "github.com/cometbft/cometbft/abci/types" {
+			if o := p.Pkg.Scope().Lookup("VoteInfo"); o != nil {
+				return types.NewSlice(o.Type())
+			}
+		}
+	}
+	return nil
 }
